@@ -133,7 +133,7 @@ var c04Funcs = []string{
 	"twice = (f, x) => f(f(x))",
 }
 
-var c04Args = []string{"0", "1", "2", "3", "1.0", "\"a\"", "[1]", "[1,2,3,4,5,6,7,8,9]", "{\"k\":1}", "nil", "true"}
+var c04Args = []string{"0", "1", "2", "3", "1.0", "0.0", "(-0.0)", "[0.0]", "[(-0.0)]", "\"a\"", "[1]", "[1,2,3,4,5,6,7,8,9]", "{\"k\":1}", "nil", "true"}
 
 func (p c04) session(c *fw.Ctx) []string {
 	r := c.Rng
@@ -145,7 +145,12 @@ func (p c04) session(c *fw.Ctx) []string {
 		}
 	}
 	arg := func() string { return c04Args[r.IntN(len(c04Args))] }
-	small := func() string { return fmt.Sprint(r.IntN(4)) }
+	small := func() string {
+		if r.IntN(12) == 0 {
+			return []string{"0.0", "(-0.0)", "1.0"}[r.IntN(3)]
+		}
+		return fmt.Sprint(r.IntN(4))
+	}
 	n := 10 + r.IntN(40)
 	for k := 0; k < n; k++ {
 		switch r.IntN(34) {
